@@ -1,15 +1,28 @@
 """C15 - dry-run (-n) commands change nothing.
 
-Static side: harness/translate_guards.py regenerates coq/Generated/Guards.v from /repo's Eups.py; coq/Props/C15.v
-proves that no write site is reachable from declare/undeclare/unassignTag/remove when noaction is true.
-Dynamic side: (1) every generated operation is run with noaction=True on the real code and the stack (database
-records + product directories, caches excluded) is hashed before and after; (2) the same operations are run with
-noaction=False under a spy on the low-level mutators, and every observed change of the stack must happen below a
-call site that the translator classified as writing (this validates the translator's "pure" tables).
+Static side: harness/translate_guards.py regenerates coq/Generated/Guards.v from /repo's Eups.py, the command
+classes of cmd.py and the wrappers of app.py; coq/Props/C15.v proves that no write site is reachable from
+declare/undeclare/unassignTag/remove, nor from eups declare / undeclare / remove, when noaction is true.
+Dynamic side, per case (a database state, one mutating request, the options of the run):
+ (1) the request is run with noaction=True on the real code - through the python API or through the command-line
+     front end (eups.cmd.EupsCmd) - and every database record and product directory of the scratch area is hashed
+     before, when the call returns, and after the exit handlers of the process have run; caches, lock directories
+     and the temporary directory are not part of the hash (see snapshot());
+ (2) the dry run is also made under a spy on the low-level mutators: the theorem says no write site is reachable, so
+     any mutator call on a record or product directory (even one that leaves the bytes as they were) is a
+     disagreement between the generated model and the code;
+ (3) the same request is run with noaction=False under the spy, and every observed change must happen below a call
+     site that the translator classified as writing (this validates the translator's "pure" tables); a dry run of a
+     request that really changes the stack must have reported something (when not run with -q).
+Cases: directed_cases() lists every class of the property's quantifier in the forms the python API and the command
+line allow, on the database states that matter (interned files, shared product directories, two stacks, user tags,
+tags of lost versions, records with a second flavor, stacks the user cannot write, fresh/stale/no cache ...);
+random_case() draws states x requests x options on top.  What counts as a record: snapshot() / is_cache_path().
 """
 import hashlib
 import json
 import os
+import re
 import shutil
 import sys
 
@@ -19,140 +32,576 @@ import translate_guards
 PRODUCTS = ["a", "b", "c"]
 VERSIONS = ["1.0", "2.0", "3.0"]
 TAGS = ["current", "stable"]
+USERTAG = "mine"                     # defined in <userdata>/startup.py
+TABLE = {
+    "a": "envPrepend(PATH, ${PRODUCT_DIR}/bin)\n",
+    "b": "setupRequired(a)\nenvPrepend(PATH, ${PRODUCT_DIR}/bin)\n",
+    "c": "setupRequired(b)\nsetupOptional(a 1.0)\nenvPrepend(PATH, ${PRODUCT_DIR}/bin)\n",
+}
+STREAMS = {"stream": "envSet(FROM_STREAM, 1)\n", "stream2": "envSet(FROM_STREAM, 2)\nenvSet(MORE, 1)\n",
+           "streamopt": "declareOptions(flavor=generic)\nenvSet(FROM_STREAM, 3)\n"}
+# external files: key -> (source file under <work>/src, destination relative to the extra directory)
+EXTERN = {"x": ("extra.txt", "doc/extra.txt"), "x!": ("extra_changed.txt", "doc/extra.txt"),
+          "y": ("notes.txt", "notes.txt"), "z": ("more.txt", "doc/more.txt")}
+SITETAG = "beta"                     # defined in <stack>/ups_db/global.tags when the state says site_tags
+LEGACY_VERSION_BLOCK = """
+Group:
+   FLAVOR = DarwinX86
+   QUALIFIERS = ""
+   DECLARER = someone
+   DECLARED = 2019/01/01 00:00:00 UTC
+   PROD_DIR = DarwinX86/%(p)s/%(v)s
+   UPS_DIR = ups
+   TABLE_FILE = %(p)s.table
+End:
+"""
+LEGACY_CHAIN_BLOCK = """
+#Group:
+   FLAVOR = DarwinX86
+   VERSION = %(v)s
+   QUALIFIERS = ""
+   DECLARER = someone
+   DECLARED = 2019/01/01 00:00:00 UTC
+#End:
+"""
+RECORD_RE = re.compile(r"^\w.*\.(version|chain)$")
+
+
+# ------------------------------------------------------------------ what is observed
+
+def is_cache_path(rel):
+    """files that are caches / locks / scratch, not database records or product directories"""
+    parts = rel.split(os.sep)
+    base = parts[-1]
+    if parts[0] == "tmp":
+        return True                                        # TMPDIR of the run (stream table copies)
+    if any(p.startswith(".lockDir") for p in parts) or base.endswith(".lock"):
+        return True
+    if ".pickleDB" in base or base.endswith(".tags"):
+        return True                                        # product cache, tag-name caches (global.tags, user.tags)
+    if "_caches_" in parts:
+        # the user's cache area; user-tag chain files (<userdata>/_caches_/<stack>/<product>/<tag>.chain) are
+        # tag assignments, i.e. records, everything else there is cache
+        return not RECORD_RE.match(base)
+    return False
+
+
+def snapshot(work):
+    """path -> sha256 for every record / product file, 'dir' for directories (cache directories excluded)"""
+    out = {}
+    for d, dirs, files in os.walk(work):
+        dirs.sort()
+        rel = os.path.relpath(d, work)
+        parts = rel.split(os.sep)
+        if parts[0] == "tmp" or any(p.startswith(".lockDir") for p in parts):
+            dirs[:] = []
+            continue
+        if "_caches_" not in parts:
+            out[rel + "/"] = "dir"
+        for sub in dirs:                                   # os.walk does not go through a link to a directory
+            if os.path.islink(os.path.join(d, sub)) and "_caches_" not in parts:
+                out[os.path.normpath(os.path.join(rel, sub))] = "link:" + os.readlink(os.path.join(d, sub))
+        for f in sorted(files):
+            r = os.path.normpath(os.path.join(rel, f))
+            if is_cache_path(r):
+                continue
+            try:
+                if os.path.islink(os.path.join(d, f)):
+                    out[r] = "link:" + os.readlink(os.path.join(d, f))
+                    continue
+                with open(os.path.join(d, f), "rb") as fd:
+                    out[r] = hashlib.sha256(fd.read()).hexdigest()
+            except OSError as e:
+                out[r] = "unreadable:%s" % type(e).__name__
+    return out
+
+
+def snap_diff(a, b):
+    return sorted(k for k in set(a) | set(b) if a.get(k) != b.get(k))
 
 
 # ------------------------------------------------------------------ scratch stacks (run inside children)
 
-def tree_hash(root):
-    """path -> sha256 for every file / 'dir' for directories, product caches and user data excluded"""
-    out = {}
-    for d, dirs, files in os.walk(root):
-        dirs.sort()
-        rel = os.path.relpath(d, root)
-        if "_caches_" in rel.split(os.sep):
-            continue
-        out[rel + "/"] = "dir"
-        for f in sorted(files):
-            if ".pickleDB" in f or f.endswith(".lock") or f.startswith(".lockDir"):
-                continue
-            p = os.path.join(d, f)
-            with open(p, "rb") as fd:
-                out[os.path.join(rel, f)] = hashlib.sha256(fd.read()).hexdigest()
-    return out
+def norm_state(state):
+    st = dict(state)
+    st.setdefault("flavor", "Linux64")
+    st.setdefault("stacks", 1)
+    decl = []
+    for d in st.get("declared", []):
+        if isinstance(d, (list, tuple)):
+            d = {"p": d[0], "v": d[1], "tag": d[2]}
+        d = dict(d)
+        d.setdefault("tag", None)
+        d.setdefault("s", 0)
+        d.setdefault("dir", "own")
+        d.setdefault("table", "own")
+        d.setdefault("extern", [])
+        decl.append(d)
+    st["declared"] = decl
+    return st
 
 
-def new_eups(stack, userdata, noaction=False, force=False):
+def layout(work, st):
+    stacks = [os.path.join(work, "stack")] + ([os.path.join(work, "stack2")] if st["stacks"] > 1 else [])
+    return {"stacks": stacks, "user": os.path.join(work, "user"), "flavor": st["flavor"], "work": work}
+
+
+def product_dir(lay, kind, p, v, s=0):
+    if kind == "own":
+        return os.path.join(lay["stacks"][s], lay["flavor"], p, v)
+    if kind == "shared":                                   # the directory of c at the same version
+        return os.path.join(lay["stacks"][s], lay["flavor"], "c", v)
+    if kind == "other":                                    # the directory of another version of the product
+        return os.path.join(lay["stacks"][s], lay["flavor"], p, [x for x in VERSIONS if x != v][0])
+    if kind == "alt":
+        return os.path.join(lay["work"], "alt")
+    if kind == "none":
+        return "none"
+    if kind == "devnull":
+        return "/dev/null"
+    if kind == "omit":
+        return None
+    raise ValueError(kind)
+
+
+def set_environ(lay, env=None):
+    for k in list(os.environ):
+        if k.startswith("SETUP_") or k.endswith("_DIR") or (k.startswith("EUPS_") and not k.startswith("EUPS_VERIF")):
+            del os.environ[k]
+    os.environ["EUPS_PATH"] = ":".join(lay["stacks"])
+    os.environ["EUPS_USERDATA"] = lay["user"]
+    os.environ["EUPS_FLAVOR"] = lay["flavor"]
+    os.environ["EUPS_SHELL"] = "sh"
+    os.environ["TMPDIR"] = os.path.join(lay["work"], "tmp")
+    import tempfile
+    tempfile.tempdir = os.path.join(lay["work"], "tmp")
+    for p, v in (env or {}).get("setup", []):
+        os.environ["SETUP_" + p.upper()] = "%s %s -f %s -Z %s" % (p, v, lay["flavor"], lay["stacks"][0])
+        os.environ[p.upper() + "_DIR"] = product_dir(lay, "own", p, v)
+
+
+def new_eups(lay, noaction=False, force=False, quiet=1, verbose=0, readCache=True, flavor=None):
     import eups
     sys.modules["eups.db.Database"]._databases.clear()
-    os.environ["EUPS_PATH"] = stack
-    os.environ["EUPS_USERDATA"] = userdata
-    os.environ["EUPS_FLAVOR"] = "Linux64"
-    os.environ["EUPS_SHELL"] = "sh"
-    e = eups.Eups(noaction=noaction, force=force, quiet=1, readCache=True)
+    e = eups.Eups(noaction=noaction, force=force, quiet=quiet, verbose=verbose, readCache=readCache, flavor=flavor)
     e.selectVRO(None, None, None, None)
     return e
 
 
+def open_stream(lay, kind, how="stringio"):
+    if how == "file":
+        return open(os.path.join(lay["work"], "src", kind + ".table"))
+    import io
+    return io.StringIO(STREAMS[kind])
+
+
+def table_arg(lay, op):
+    t = op.get("table", "own")
+    if t in ("own", "omit"):
+        return None
+    if t == "none":
+        return "none"
+    if t in STREAMS:
+        return open_stream(lay, t, op.get("stream", "stringio"))
+    s = op.get("s") if isinstance(op.get("s"), int) else 0
+    if t == "interned":                                    # the interned copy, by its absolute name
+        return os.path.join(lay["stacks"][s], "ups_db", lay["flavor"], op["p"], op["v"], "ups", op["p"] + ".table")
+    if t == "explicit":                                    # -m <path of the table file in the product directory>
+        return os.path.join(product_dir(lay, "own", op["p"], op["v"], s), "ups", op["p"] + ".table")
+    if t == "missing":
+        return os.path.join(lay["work"], "src", "nosuch.table")
+    if t == "isdir":
+        return os.path.join(lay["work"], "src")
+    raise ValueError(t)
+
+
+def extern_arg(lay, op):
+    return [(os.path.join(lay["work"], "src", EXTERN[k][0]), EXTERN[k][1]) for k in op.get("extern") or []]
+
+
 def build_state(work, state):
-    """state: {"declared": [[p, v, tag-or-None], ...]}; returns (stack, userdata)"""
-    stack = os.path.join(work, "stack")
-    userdata = os.path.join(work, "user")
-    os.makedirs(os.path.join(stack, "ups_db"))
-    os.makedirs(os.path.join(userdata, "ups_db"))
-    for p in PRODUCTS:
-        for v in VERSIONS:
-            d = os.path.join(stack, "Linux64", p, v)
-            os.makedirs(os.path.join(d, "ups"))
-            with open(os.path.join(d, "ups", p + ".table"), "w") as f:
-                if p == "b":
-                    f.write("setupRequired(a)\n")
-                if p == "c":
-                    f.write("setupRequired(b)\nsetupOptional(a 1.0)\n")
-                f.write("envPrepend(PATH, ${PRODUCT_DIR}/bin)\n")
-            with open(os.path.join(d, "payload.txt"), "w") as f:
-                f.write("%s %s\n" % (p, v))
+    """creates the directories and declares the products of the state; returns the layout"""
+    st = norm_state(state)
+    lay = layout(work, st)
+    os.makedirs(os.path.join(lay["user"], "ups_db"))
+    os.makedirs(os.path.join(work, "tmp"))
+    with open(os.path.join(lay["user"], "startup.py"), "w") as f:
+        f.write("hooks.config.Eups.userTags += [%r]\n" % USERTAG)
+    for stack in lay["stacks"]:
+        os.makedirs(os.path.join(stack, "ups_db"))
+        for p in PRODUCTS:
+            for v in VERSIONS:
+                d = os.path.join(stack, lay["flavor"], p, v)
+                os.makedirs(os.path.join(d, "ups"))
+                for q in (PRODUCTS if p == "c" else [p]):   # c's directories can be shared by a and b
+                    with open(os.path.join(d, "ups", q + ".table"), "w") as f:
+                        f.write(TABLE[q])
+                with open(os.path.join(d, "payload.txt"), "w") as f:
+                    f.write("%s %s\n" % (p, v))
     os.makedirs(os.path.join(work, "alt", "ups"))
-    with open(os.path.join(work, "alt", "ups", "a.table"), "w") as f:
-        f.write("envSet(ALT, 1)\n")
-    with open(os.path.join(work, "extra.txt"), "w") as f:
-        f.write("extra file\n")
-    e = new_eups(stack, userdata)
-    for p, v, t in state["declared"]:
-        e = new_eups(stack, userdata)
-        e.declare(p, v, os.path.join(stack, "Linux64", p, v), tag=t)
-    return stack, userdata
-
-
-def apply_op(e, op, stack, work):
-    k = op["op"]
-    if k == "declare":
-        pdir = os.path.join(stack, "Linux64", op["p"], op["v"]) if op.get("dir", "own") == "own" else \
-            os.path.join(work, "alt")
+    for q in PRODUCTS:
+        with open(os.path.join(work, "alt", "ups", q + ".table"), "w") as f:
+            f.write("envSet(ALT, 1)\n")
+    os.makedirs(os.path.join(work, "odd", "x", "1.0", "ups"))   # the table file is not named after the directory
+    with open(os.path.join(work, "odd", "x", "1.0", "ups", "a.table"), "w") as f:
+        f.write("envSet(ODD, 1)\n")
+    os.makedirs(os.path.join(work, "src"))
+    for name, text in [("extra.txt", "extra file\n"), ("extra_changed.txt", "extra file, second edition\n"),
+                       ("notes.txt", "notes\n"), ("more.txt", "more\n")] + \
+                      [(k + ".table", v) for k, v in STREAMS.items()]:
+        with open(os.path.join(work, "src", name), "w") as f:
+            f.write(text)
+    if st.get("site_tags"):                                # tags defined by the stack itself (ups_db/global.tags)
+        with open(os.path.join(lay["stacks"][0], "ups_db", "global.tags"), "w") as f:
+            f.write("current stable %s\n" % SITETAG)
+    set_environ(lay)
+    e, flavored = None, False
+    for d in st["declared"]:
+        if e is None or d.get("force") or d.get("flavor") or flavored:
+            e = new_eups(lay, force=bool(d.get("force")), flavor=d.get("flavor"))
+            flavored = bool(d.get("flavor"))
         kw = {}
-        if op.get("table") == "stream":
-            import io
-            kw["tablefile"] = io.StringIO("envSet(FROM_STREAM, 1)\n")
-        if op.get("extern"):
-            kw["externalFileList"] = [(os.path.join(work, "extra.txt"), "doc/extra.txt")]
-        e.declare(op["p"], op["v"], pdir, tag=op.get("tag"), **kw)
-    elif k == "declare_tag":
-        e.declare(op["p"], op["v"], tag=op["tag"])
+        t = table_arg(lay, d)
+        if t is not None:
+            kw["tablefile"] = t
+        if d["extern"]:
+            kw["externalFileList"] = extern_arg(lay, d)
+        if d["dir"] == "none" or d["s"]:
+            kw["eupsPathDir"] = lay["stacks"][d["s"]]
+        e.declare(d["p"], d["v"], product_dir(lay, d["dir"], d["p"], d["v"], d["s"]), tag=d["tag"], **kw)
+        if hasattr(t, "close"):
+            t.close()
+    # tags that name a version which is not declared (version file lost, chain file still there)
+    for p, v in st.get("stale", []):
+        for stack in lay["stacks"]:
+            f = os.path.join(stack, "ups_db", p, v + ".version")
+            if os.path.exists(f):
+                os.remove(f)
+    # a chain file of a tag that the configuration does not define
+    for p in st.get("alien", []):
+        src = os.path.join(lay["stacks"][0], "ups_db", p, "current.chain")
+        if os.path.exists(src):
+            with open(src) as f:
+                text = f.read()
+            with open(os.path.join(lay["stacks"][0], "ups_db", p, "beta.chain"), "w") as f:
+                f.write(text.replace("CHAIN = current", "CHAIN = beta"))
+    # records as an older eups or an editor left them: comments, a block for a second flavor
+    for p, v in st.get("legacy", []):
+        pdb = os.path.join(lay["stacks"][0], "ups_db", p)
+        for name in sorted(os.listdir(pdb)) if os.path.isdir(pdb) else []:
+            f = os.path.join(pdb, name)
+            with open(f) as fd:
+                text = fd.read()
+            if name == v + ".version":
+                text = "# edited by hand\n" + text + LEGACY_VERSION_BLOCK % {"p": p, "v": v}
+            elif name.endswith(".chain") and ("VERSION = %s\n" % v) in text:
+                text = "# edited by hand\n" + text + LEGACY_CHAIN_BLOCK % {"v": v}
+            else:
+                continue
+            with open(f, "w") as fd:
+                fd.write(text)
+    # a version file without PROD_DIR
+    for p, v in st.get("no_prod_dir", []):
+        f = os.path.join(lay["stacks"][0], "ups_db", p, v + ".version")
+        with open(f) as fd:
+            lines = fd.readlines()
+        with open(f, "w") as fd:
+            fd.writelines(l for l in lines if "PROD_DIR" not in l)
+    # the table file a declaration names is gone
+    for p, v in st.get("lost_table", []):
+        f = os.path.join(product_dir(lay, "own", p, v), "ups", p + ".table")
+        if os.path.exists(f):
+            os.remove(f)
+    if st.get("warm"):                                     # caches written by a reader after the last change
+        new_eups(lay).findProducts()
+    return lay
+
+
+# ------------------------------------------------------------------ the request: python API / command line
+
+def apply_api(e, op, lay):
+    k = op["op"]
+    if k == "seq":                                         # several requests to one Eups instance
+        for sub in op["ops"]:
+            try:
+                apply_api(e, sub, lay)
+            except Exception:  # noqa
+                if not op.get("keep_going"):
+                    raise
+        return
+    s = op.get("s")
+    if isinstance(s, list):
+        root = [lay["stacks"][i] for i in s]
+    else:
+        root = lay["user"] if s == "user" else (lay["stacks"][s] if s is not None else None)
+    if k in ("declare", "declare_tag"):
+        kw = {}
+        if k == "declare":
+            pdir = product_dir(lay, op.get("dir", "own"), op["p"], op["v"], s if isinstance(s, int) else 0)
+            t = table_arg(lay, op)
+            if t is not None:
+                kw["tablefile"] = t
+            if op.get("extern"):
+                kw["externalFileList"] = extern_arg(lay, op)
+        else:
+            pdir = None
+        if root:
+            kw["eupsPathDir"] = root
+        if op.get("deprecated"):                           # the old spelling of tag=current
+            if op["deprecated"] == "bool":
+                kw["tag"] = True
+            else:
+                kw["declareCurrent"] = True
+        else:
+            kw["tag"] = op.get("tag")
+        e.declare("" if op.get("guess") else op["p"], op["v"], pdir, **kw)
     elif k == "undeclare":
-        e.undeclare(op["p"], op.get("v"), tag=op.get("tag"), undeclareVersionAndTag=bool(op.get("both")))
+        kw = {}
+        if op.get("deprecated"):
+            if op["deprecated"] == "bool":
+                kw["tag"] = True
+            else:
+                kw["undeclareCurrent"] = True
+        else:
+            kw["tag"] = op.get("tag")
+        e.undeclare(op["p"], op.get("v"), eupsPathDir=root, undeclareVersionAndTag=bool(op.get("both")), **kw)
     elif k == "untag":
-        e.unassignTag(op["tag"], op["p"], op.get("v"))
+        e.unassignTag(op["tag"], op["p"], op.get("v"), eupsPathDir=root)
     elif k == "remove":
-        e.remove(op["p"], op["v"], recursive=bool(op.get("rec")), checkRecursive=bool(op.get("check")))
+        e.remove(op["p"], op["v"], recursive=bool(op.get("rec")), checkRecursive=bool(op.get("check")),
+                 interactive=op.get("answers") is not None)
     else:
         raise ValueError(k)
 
 
-def run_case(case, spy_sites=None):
-    """child: build the state, run the op; returns dict(before==after?, diff, outcome, spied)"""
+def place(lay, text):
+    """{stack} {stack2} {user} {alt} {src} {dir:p:v} {dir2:p:v} in a command-line word"""
+    def sub(m):
+        w = m.group(1).split(":")
+        if w[0] == "stack":
+            return lay["stacks"][0]
+        if w[0] == "stack2":
+            return lay["stacks"][-1]
+        if w[0] in ("user", "work"):
+            return lay[w[0]]
+        if w[0] in ("alt", "src"):
+            return os.path.join(lay["work"], w[0])
+        if w[0] in ("dir", "dir2"):
+            return product_dir(lay, "own", w[1], w[2], 0 if w[0] == "dir" else len(lay["stacks"]) - 1)
+        raise ValueError(text)
+    return re.sub(r"\{([^}]*)\}", sub, text)
+
+
+def cli_argv(op, env, lay, noaction):
+    """the eups command line of the request (None when the request has no command-line form)"""
+    k = op["op"]
+    if op.get("deprecated") or (op.get("s") is not None and (k != "declare" or not isinstance(op["s"], int))):
+        return None
+    if k == "seq":
+        return None
+    if k == "cli":                                         # a command line as typed; -n is all that is added
+        return [place(lay, a) for a in op["argv"]] + (["-n"] if noaction else [])
+    g = []
+    if noaction:
+        g.append("-n")
+    if env.get("quiet"):
+        g.append("-q")
+    g += ["-v"] * int(env.get("verbose") or 0)
+    if env.get("force"):
+        g.append("-F")
+    if env.get("nolocks"):
+        g.append("--nolocks")
+    if k in ("declare", "declare_tag"):
+        a = ["declare"] + ([] if op.get("guess") else [op["p"]] + ([op["v"]] if op.get("v") else []))
+        if k == "declare":
+            pdir = product_dir(lay, op.get("dir", "own"), op["p"], op.get("v") or VERSIONS[0], op.get("s") or 0)
+            if pdir is not None:
+                a += ["-r", pdir]
+            t = op.get("table", "own")
+            if t in STREAMS:
+                a += ["-M", "-" if op.get("stream") == "stdin" else os.path.join(lay["work"], "src", t + ".table")]
+            elif t not in ("own", "omit"):
+                a += ["-m", table_arg(lay, op)]
+            for key in op.get("extern") or []:
+                src, dst = EXTERN[key]
+                src = os.path.join(lay["work"], "src", src)
+                a += ["-L", src if dst == os.path.basename(src) else "%s:%s" % (src, dst)]
+        if op.get("tag") == "current" and op.get("c_flag"):
+            a.append("-c")
+        elif op.get("tag"):
+            a += ["-t", op["tag"]]
+        return a + g
+    if k == "undeclare":
+        a = ["undeclare", op["p"]] + ([op["v"]] if op.get("v") else [])
+        if op.get("tag"):
+            a += ["-t", op["tag"]]
+        if op.get("both"):
+            a.append("-U")
+        return a + g
+    if k == "untag":                                       # eups remove -t TAG: the tag is removed everywhere
+        return None
+    if k == "remove_tag":
+        return ["remove", "-t", op["tag"]] + ([op["p"]] if op.get("p") else []) + ([] if op.get("check") else ["-N"]) + g
+    if k == "remove":
+        a = ["remove", op["p"], op["v"]]
+        if op.get("rec"):
+            a.append("-R")
+        if not op.get("check"):
+            a.append("-N")
+        if op.get("answers") is not None:
+            a.append("-i")
+        elif op.get("no_i"):
+            a.append("--noInteractive")
+        return a + g
+    raise ValueError(k)
+
+
+NOBODY = 65534
+
+
+def world_accessible(path):
+    """can another user reach path (every directory down to it has o+x)?"""
+    p = os.path.abspath(path)
+    while True:
+        if not os.stat(p).st_mode & 0o001:
+            return False
+        q = os.path.dirname(p)
+        if q == p:
+            return True
+        p = q
+
+
+def become_nobody(lay, env):
+    """the run is made by an ordinary user: the stacks belong to root (not writable), the user data directory, the
+    temporary directory and the stacks listed under env[own] belong to the user"""
+    if os.getuid() != 0:
+        return
+    mine = [lay["user"], os.path.join(lay["work"], "tmp")] + [lay["stacks"][i] for i in env.get("own", [])]
+    for top in mine:
+        for d, dirs, files in os.walk(top):
+            os.chown(d, NOBODY, NOBODY)
+            for f in files:
+                os.chown(os.path.join(d, f), NOBODY, NOBODY)
+    covdir = os.environ.get("EUPS_VERIF_COVERAGE")
+    if covdir and os.path.isdir(covdir):
+        os.chmod(covdir, 0o1777)
+    os.setgroups([])
+    os.setgid(NOBODY)
+    os.setuid(NOBODY)
+
+
+def phase(case, lay, noaction, spy):
+    """grandchild: one run of the request; returns outcome, snapshots' differences, captured report, spied writes"""
+    import io
+    import tempfile
+    import atexit
+    env = case.get("env") or {}
+    op = case["op"]
+    work = lay["work"]
+    atexit._clear()                                        # handlers inherited from the harness are not the command's
+    set_environ(lay, env)
+    if env.get("user") == "nobody":
+        become_nobody(lay, env)
+    before = snapshot(work)
+    spied = []
+    if spy:
+        install_spy(work, spied)
+    if op.get("answers") is not None:
+        sys.stdin = io.StringIO("".join(a + "\n" for a in op["answers"]))
+    elif op.get("stream") == "stdin":
+        sys.stdin = io.StringIO(STREAMS[op["table"]])
+    error = None
+    cap = tempfile.TemporaryFile(dir=os.path.join(work, "tmp"))
+    sys.stdout.flush()
+    sys.stderr.flush()
+    saved = os.dup(1), os.dup(2)
+    os.dup2(cap.fileno(), 1)
+    os.dup2(cap.fileno(), 2)
+    try:
+        try:
+            if env.get("via") == "cli":
+                import eups.cmd as C
+                argv = cli_argv(op, env, lay, noaction)
+                sys.modules["eups.db.Database"]._databases.clear()
+                rc = C.EupsCmd(args=argv, toolname="eups").run()
+                outcome = "ok" if not rc else "status:%s" % rc
+            else:
+                e = new_eups(lay, noaction=noaction, force=bool(env.get("force")), quiet=int(env.get("quiet", 1)),
+                             verbose=int(env.get("verbose") or 0), readCache=not env.get("nocache"))
+                apply_api(e, op, lay)
+                outcome = "ok"
+        except BaseException as ex:  # noqa
+            outcome = "exc:" + type(ex).__name__
+            error = str(ex)[:300]
+    finally:
+        sys.stdout.flush()
+        sys.stderr.flush()
+        os.dup2(saved[0], 1)
+        os.dup2(saved[1], 2)
+    at_return = snapshot(work)
+    # what a process does when it ends normally: exit handlers (lock release, removal of the stream table copy)
+    try:
+        atexit._run_exitfuncs()
+    except BaseException:  # noqa
+        pass
+    at_exit = snapshot(work)
+    cap.seek(0)
+    text = cap.read().decode("utf-8", "replace")
+    diff = sorted(set(snap_diff(before, at_return)) | set(snap_diff(before, at_exit)))
+    return {"unchanged": not diff, "diff": diff[:12], "outcome": outcome, "error": error, "spied": spied[:40],
+            "report": [l for l in text.split("\n") if l.strip()][:6]}
+
+
+def run_case(case):
+    """child: build the state, then the dry run and the real run one after the other in forked grandchildren"""
     common.import_eups()
     work = common.scratch_dir("c15.")
     try:
-        stack, userdata = build_state(work, case["state"])
-        before = tree_hash(stack)
-        spied = []
-        if spy_sites is not None:
-            install_spy(stack, spied)
-        e = new_eups(stack, userdata, noaction=case["noaction"], force=bool(case["op"].get("force")))
-        try:
-            apply_op(e, case["op"], stack, work)
-            outcome = "ok"
-        except BaseException as ex:  # noqa
-            outcome = "exc:" + type(ex).__name__
-        after = tree_hash(stack)
-        diff = sorted(k for k in set(before) | set(after) if before.get(k) != after.get(k))
-        return {"unchanged": before == after, "diff": diff[:12], "outcome": outcome, "spied": spied}
+        lay = build_state(work, case["state"])
+        as_root = False
+        if (case.get("env") or {}).get("user") == "nobody":
+            os.chmod(work, 0o755)
+            if os.getuid() != 0 or not world_accessible(work):
+                case = dict(case, env=dict(case["env"], user=None))
+                as_root = True
+        dry = common.in_child(phase, case, lay, True, True, timeout=300)
+        if dry[0] != "ok":
+            raise RuntimeError("dry run child failed: %r" % (dry,))
+        wet = None
+        if dry[1]["unchanged"]:
+            wet = common.in_child(phase, case, lay, False, True, timeout=300)
+            if wet[0] != "ok":
+                raise RuntimeError("real run child failed: %r" % (wet,))
+            wet = wet[1]
+        return {"dry": dry[1], "wet": wet, "as_root": as_root}
     finally:
         shutil.rmtree(work, ignore_errors=True)
 
 
-# ------------------------------------------------------------------ spy (noaction=False runs)
+# ------------------------------------------------------------------ spy on the low-level mutators
 
-def install_spy(stack, log):
-    """record (method, line) of the innermost translated-method frame for every low-level change under stack"""
+def install_spy(work, log):
+    """record (method, line) of the innermost translated-method frame for every low-level change of a record or
+    product directory under work"""
     import builtins
     import eups.utils as U
     methods = set(translate_guards.METHODS)
 
     def note(path):
         try:
-            p = os.path.abspath(str(path))
+            p = os.path.abspath(os.fspath(path))
         except Exception:  # noqa
             return
-        if not p.startswith(stack + os.sep) or "_caches_" in p or ".pickleDB" in p:
+        if not p.startswith(work + os.sep) or is_cache_path(os.path.relpath(p, work)):
             return
         f = sys._getframe(2)
         while f is not None:
-            if f.f_code.co_filename.endswith(os.path.join("eups", "Eups.py")) and f.f_code.co_name in methods:
-                log.append([f.f_code.co_name, f.f_lineno, os.path.relpath(p, stack)])
+            fn = f.f_code.co_filename
+            if fn.endswith(os.path.join("eups", "Eups.py")) and f.f_code.co_name in methods:
+                log.append([f.f_code.co_name, f.f_lineno, os.path.relpath(p, work)])
                 return
-            # nested helpers of declare (cleanup) keep their own names; attribute them to declare
             f = f.f_back
-        log.append([None, 0, os.path.relpath(p, stack)])
+        log.append([None, 0, os.path.relpath(p, work)])
 
     def wrap(mod, name, argidx=0):
         orig = getattr(mod, name)
@@ -162,22 +611,31 @@ def install_spy(stack, log):
                 note(a[argidx])
             return orig(*a, **k)
         setattr(mod, name, w)
-    for n in ("mkdir", "makedirs", "remove", "unlink", "rmdir", "chmod"):
+    for n in ("mkdir", "makedirs", "remove", "unlink", "rmdir", "chmod", "truncate", "utime"):
         wrap(os, n)
-    wrap(os, "rename", 1)
-    wrap(os, "replace", 1)
+    for n in ("rename", "replace", "symlink", "link"):
+        wrap(os, n, 1)
+    wrap(os, "rename", 0)
     wrap(shutil, "rmtree")
+    wrap(shutil, "move", 1)
     wrap(U, "copyfile", 1)
     orig_open = builtins.open
+    orig_os_open = os.open
 
     def open_w(file, mode="r", *a, **k):
-        if any(c in mode for c in "wax+"):
+        if isinstance(file, (str, bytes, os.PathLike)) and any(c in mode for c in "wax+"):
             note(file)
         return orig_open(file, mode, *a, **k)
     builtins.open = open_w
 
+    def os_open_w(path, flags, *a, **k):
+        if flags & (os.O_WRONLY | os.O_RDWR | os.O_CREAT | os.O_TRUNC | os.O_APPEND):
+            note(path)
+        return orig_os_open(path, flags, *a, **k)
+    os.open = os_open_w
 
-# ------------------------------------------------------------------ generator
+
+# ------------------------------------------------------------------ generators
 
 def gen_state(rng):
     declared = []
@@ -185,36 +643,427 @@ def gen_state(rng):
         vs = [v for v in VERSIONS if rng.random() < 0.55]
         cur = rng.choice(vs) if vs and rng.random() < 0.8 else None
         for v in vs:
-            declared.append([p, v, "current" if v == cur else ("stable" if rng.random() < 0.2 else None)])
-    return {"declared": declared}
+            d = {"p": p, "v": v, "tag": "current" if v == cur else ("stable" if rng.random() < 0.2 else None)}
+            r = rng.random()
+            if r < 0.12:
+                d["table"] = "stream"
+            elif r < 0.22:
+                d["extern"] = [rng.choice(["x", "y"])]
+            elif r < 0.30 and p != "c":
+                d["dir"] = "shared"
+            elif r < 0.35:
+                d["dir"], d["table"] = "none", "none"
+            declared.append(d)
+    st = {"declared": declared, "flavor": rng.choice(["Linux64", "Linux64", "generic"])}
+    if rng.random() < 0.25:
+        st["stacks"] = 2
+        for p in PRODUCTS:
+            if rng.random() < 0.5:
+                st["declared"].append({"p": p, "v": rng.choice(VERSIONS), "s": 1,
+                                       "tag": rng.choice([None, "current", "stable"])})
+    tagged = [(d["p"], d["v"]) for d in declared if d["tag"]]
+    if tagged and rng.random() < 0.15:
+        st["stale"] = [list(rng.choice(tagged))]
+    if rng.random() < 0.3:
+        st["warm"] = True
+    r = rng.random()
+    if r < 0.10 and declared:
+        d = rng.choice(declared)
+        if d.get("dir", "own") == "own" and d.get("table", "own") == "own":
+            st["legacy"] = [[d["p"], d["v"]]]
+    elif r < 0.18:
+        cur = [d["p"] for d in declared if d["tag"] == "current"]
+        if cur:
+            st["alien"] = [rng.choice(cur)]
+    elif r < 0.26:
+        st["site_tags"] = True
+    return st
+
+
+def gen_env(rng, st=None):
+    env = {"via": rng.choice(["api", "cli"]), "quiet": int(rng.random() < 0.4),
+           "verbose": rng.choice([0, 0, 1, 2, 3]), "force": rng.random() < 0.35, "nolocks": rng.random() < 0.5}
+    r = rng.random()
+    if r < 0.10:                                           # an ordinary user; the second stack may be the user's own
+        env["user"], env["nolocks"] = "nobody", True
+        if st and st.get("stacks", 1) > 1 and rng.random() < 0.6:
+            env["own"] = [1]
+    elif r < 0.18:
+        env["via"], env["nocache"] = "api", True
+    elif r < 0.26 and st and st.get("declared"):
+        d = rng.choice(st["declared"])
+        if d.get("s", 0) == 0 and d.get("dir", "own") == "own":
+            env["setup"] = [[d["p"], d["v"]]]
+    return env
 
 
 def gen_op(rng, state):
-    decl = [(p, v) for p, v, _ in state["declared"]]
+    st = norm_state(state)
+    decl = [(d["p"], d["v"]) for d in st["declared"]]
     undecl = [(p, v) for p in PRODUCTS for v in VERSIONS if (p, v) not in decl]
+    tags = TAGS + [USERTAG]
     r = rng.random()
-    if r < 0.30:
+    if r < 0.25:
         p, v = rng.choice(undecl or decl)
-        return {"op": "declare", "p": p, "v": v, "tag": rng.choice([None, None, "current", "stable"]),
-                "table": rng.choice(["own", "own", "stream"]), "extern": rng.random() < 0.3}
+        return {"op": "declare", "p": p, "v": v, "tag": rng.choice([None, None, "current", "stable", USERTAG]),
+                "dir": rng.choice(["own", "own", "own", "alt", "shared" if p != "c" else "own"]),
+                "table": rng.choice(["own", "own", "stream", "stream2"]),
+                "stream": rng.choice(["stringio", "file"]),
+                "extern": rng.choice([[], [], ["x"], ["x", "y"], ["y", "z"]])}
     if r < 0.42 and decl:
         p, v = rng.choice(decl)
-        return {"op": "declare", "p": p, "v": v, "dir": rng.choice(["own", "alt"]), "force": rng.random() < 0.5,
-                "tag": rng.choice([None, "current"]), "table": rng.choice(["own", "stream"]),
-                "extern": rng.random() < 0.3}
-    if r < 0.55 and decl:
+        return {"op": "declare", "p": p, "v": v, "dir": rng.choice(["own", "own", "alt", "other"]),
+                "tag": rng.choice([None, "current", "stable"]),
+                "table": rng.choice(["own", "own", "stream", "stream2", "interned", "explicit"]),
+                "extern": rng.choice([[], [], ["x"], ["x!"], ["x", "z"], ["y"]])}
+    if r < 0.52 and decl:
         p, v = rng.choice(decl)
-        return {"op": "declare_tag", "p": p, "v": v, "tag": rng.choice(TAGS)}
-    if r < 0.72 and decl:
+        return {"op": "declare_tag", "p": p, "v": v, "tag": rng.choice(tags)}
+    if r < 0.70 and decl:
         p, v = rng.choice(decl)
         return {"op": "undeclare", "p": p, "v": rng.choice([v, v, None]),
                 "tag": rng.choice([None, None, "current", "stable"]), "both": rng.random() < 0.3}
-    if r < 0.82 and decl:
+    if r < 0.80 and decl:
         p, v = rng.choice(decl)
         return {"op": "untag", "p": p, "v": rng.choice([v, None]), "tag": rng.choice(TAGS)}
+    if r < 0.85 and decl:
+        return {"op": "remove_tag", "tag": rng.choice(TAGS), "p": rng.choice([None, None, rng.choice(decl)[0]])}
     p, v = rng.choice(decl or undecl)
-    return {"op": "remove", "p": p, "v": v, "rec": rng.random() < 0.5, "check": rng.random() < 0.4,
-            "force": rng.random() < 0.3}
+    op = {"op": "remove", "p": p, "v": v, "rec": rng.random() < 0.6, "check": rng.random() < 0.4}
+    if rng.random() < 0.2:
+        op["answers"] = rng.choice([["y", "y", "y"], ["n", "y", "y"], ["y", "q"], ["!"], ["?", "y", "n", "y"]])
+    return op
+
+
+def random_case(rng):
+    st = gen_state(rng)
+    op = gen_op(rng, st)
+    env = gen_env(rng, st)
+    if env["via"] == "cli" and cli_argv(op, env, layout("/w", norm_state(st)), True) is None:
+        env["via"] = "api"
+    if env["via"] == "api" and op["op"] == "remove_tag":
+        env["via"] = "cli"
+        env.pop("nocache", None)
+    return {"state": st, "op": op, "env": env}
+
+
+def D(p, v, tag=None, **kw):
+    return dict({"p": p, "v": v, "tag": tag}, **kw)
+
+
+def directed_cases():
+    """the input classes of the property's quantifier, each in the forms the command line allows; every entry is
+    (family, state, op, list of option sets)"""
+    API, CLI = {"via": "api"}, {"via": "cli"}
+    F = {"force": True}
+    both = [dict(API, quiet=1), dict(CLI)]
+    both_f = [dict(API, quiet=1), dict(CLI), dict(API, quiet=0, **F), dict(CLI, **F)]
+    loud = [dict(API, quiet=0, verbose=2), dict(CLI, verbose=1), dict(CLI, verbose=3, nolocks=True),
+            dict(CLI, quiet=1)]
+    base = [D("a", "1.0", "current"), D("a", "2.0", "stable"), D("b", "1.0", "current"), D("c", "1.0", "current")]
+    interned = [D("a", "1.0", "current", table="stream", extern=["x"]), D("a", "2.0"), D("b", "1.0", "current")]
+    out = []
+
+    def add(family, declared, op, envs, **st):
+        out.append((family, dict({"declared": declared}, **st), op, envs))
+
+    # -- new declarations
+    add("declare/first-of-product", [], {"op": "declare", "p": "a", "v": "1.0"}, both + loud)
+    add("declare/first-of-product", [D("b", "1.0", "current")], {"op": "declare", "p": "a", "v": "2.0", "tag": "stable"},
+        both)
+    add("declare/new-version", base, {"op": "declare", "p": "a", "v": "3.0"}, both_f)
+    for tag in ("current", "stable", USERTAG):
+        add("declare/new-version-with-tag", base, {"op": "declare", "p": "a", "v": "3.0", "tag": tag}, both)
+    add("declare/new-version-with-tag", base, {"op": "declare", "p": "a", "v": "3.0", "tag": "current", "c_flag": True},
+        [CLI])
+    add("declare/deprecated-current", base, {"op": "declare", "p": "a", "v": "3.0", "deprecated": "flag"}, [API])
+    add("declare/deprecated-current", base, {"op": "declare", "p": "a", "v": "3.0", "deprecated": "bool"}, [API])
+    for kind, how in (("stream", "stringio"), ("stream", "file"), ("stream2", "stdin"), ("streamopt", "file")):
+        add("declare/new-stream-table", base, {"op": "declare", "p": "a", "v": "3.0", "table": kind, "stream": how,
+                                               "tag": "current"},
+            [CLI] if how == "stdin" else both)
+    for ext in (["x"], ["y"], ["x", "y", "z"]):
+        add("declare/new-external-files", base, {"op": "declare", "p": "b", "v": "2.0", "extern": ext}, both)
+    add("declare/new-external-files", base, {"op": "declare", "p": "b", "v": "2.0", "extern": ["x"], "table": "stream",
+                                             "tag": "stable"}, both_f)
+    add("declare/new-no-directory", base, {"op": "declare", "p": "a", "v": "3.0", "dir": "none", "table": "none"}, both)
+    add("declare/new-no-directory", base, {"op": "declare", "p": "a", "v": "3.0", "dir": "none", "table": "stream"},
+        both)
+    add("declare/new-no-table", base, {"op": "declare", "p": "a", "v": "3.0", "table": "none"}, both)
+    add("declare/new-explicit-table", base, {"op": "declare", "p": "a", "v": "3.0", "table": "explicit"}, both)
+    add("declare/new-outside-stack", base, {"op": "declare", "p": "a", "v": "3.0", "dir": "alt"}, both)
+    add("declare/new-directory-guessed", base, {"op": "declare", "p": "a", "v": "3.0", "dir": "omit"}, both)
+    add("declare/new-shared-directory", base, {"op": "declare", "p": "b", "v": "2.0", "dir": "shared"}, both)
+    add("declare/tag-as-version", base, {"op": "declare", "p": "a", "v": None, "dir": "alt", "tag": USERTAG}, [CLI])
+    add("declare/tag-as-version", base, {"op": "declare", "p": "a", "v": "tag:" + USERTAG, "dir": "alt",
+                                         "tag": USERTAG}, [API])
+    add("declare/tag-as-version-again", base + [D("a", "tag:" + USERTAG, USERTAG, dir="alt")],
+        {"op": "declare", "p": "a", "v": "tag:" + USERTAG, "dir": "other", "s": "user", "tag": USERTAG},
+        [API, dict(API, **F)])
+    add("declare/bad-arguments", base, {"op": "declare", "p": "a-b", "v": "1.0"}, [API])
+    add("declare/bad-arguments", base, {"op": "declare", "p": "a", "v": "9.9", "dir": "omit"}, both)
+    add("declare/bad-arguments", base, {"op": "declare", "p": "a", "v": "9.9", "dir": "own"}, both)
+    add("declare/new-interned-table-name", base, {"op": "declare", "p": "a", "v": "3.0", "table": "interned"}, both)
+    add("declare/bad-arguments", base, {"op": "declare", "p": "a", "v": "3.0", "table": "missing"}, both)
+    add("declare/bad-arguments", base, {"op": "declare", "p": "a", "v": "3.0", "table": "isdir"}, both)
+    add("declare/bad-arguments", base, {"op": "declare", "p": "a", "v": "3.0", "dir": "devnull"}, both)
+    add("declare/new-directory-guessed", base, {"op": "declare", "p": "a", "v": "3.0", "dir": "devnull",
+                                                "tag": "stable"}, both)
+    add("declare/new-no-directory", base, {"op": "declare", "p": "a", "v": "3.0", "dir": "none", "table": "explicit"},
+        both)
+    add("declare/product-name-guessed", base, {"op": "declare", "p": "a", "v": "3.0", "guess": True}, both)
+    add("declare/product-name-guessed", base, {"op": "declare", "p": "a", "v": "3.0", "guess": True, "dir": "alt"},
+        both)
+    # -- the command line as typed: argument errors, other spellings, path and flavor options
+    for argv in (["declare"], ["declare", "a"], ["declare", "-m", "none"], ["declare", "-M", "{src}/stream.table"],
+                 ["declare", "-r", "none"], ["declare", "-r", "{src}"], ["declare", "-r", "{dir:a:3.0}", "-t", "stable"],
+                 ["declare", "-r", "{alt}", "-t", "stable"], ["declare", "-r", "{alt}"],
+                 ["declare", "a", "3.0", "-r", "{dir:a:3.0}", "-t", "current", "-t", "stable"],
+                 ["declare", "a", "3.0", "-r", "{dir:a:3.0}", "-m", "a.table", "-M", "{src}/stream.table"],
+                 ["declare", "a", "3.0", "-r", "{dir:a:3.0}", "-M", "{src}/nosuch.table"],
+                 ["declare", "a", "3.0", "-r", "{dir:a:3.0}", "-L", "-"],
+                 ["declare", "a", "3.0", "-r", "{dir:a:3.0}", "-L", "{src}/nosuch.txt"],
+                 ["declare", "a", "3.0", "-r", "{dir:a:3.0}", "-L", "{src}/extra.txt:renamed.txt"],
+                 ["declare", "a", "3.0", "-r", "{dir:a:3.0}", "-L", "{src}/extra.txt:doc/renamed.txt:junk"],
+                 ["declare", "a", "3.0", "-r", "{dir:a:3.0}", "-L", "{src}/extra.txt", "-L", "{src}/notes.txt:doc/"],
+                 ["declare", "a", "3.0", "-r", "{dir:a:3.0}", "-f", "DarwinX86"],
+                 ["declare", "a", "1.0", "-r", "{dir:a:1.0}", "-f", "DarwinX86", "-t", "stable"],
+                 ["declare", "a", "3.0", "-r", "{dir:a:3.0}", "-Z", "{stack}"],
+                 ["declare", "a", "3.0", "-r", "{dir:a:3.0}", "-z", "stack"],
+                 ["declare", "a", "3.0", "-r", "{dir:a:3.0}", "--nolocks", "-T", "build"],
+                 ["declare", "a", "3.0", "-r", "{dir:a:3.0}", "--vro", "current"],
+                 ["declare", "-r", "{work}/odd/x/1.0"], ["declare", "-r", "{work}/odd/x/1.0", "-t", "stable"],
+                 ["declare", "-r", "{work}/odd/x/1.0", "7.0"],
+                 ["declare", "a", "3.0", "-r", "{dir:a:3.0}", "-Z", "/nonexistent"],
+                 ["undeclare", "a", "1.0", "-Z", "/nonexistent"], ["remove", "a", "2.0", "-Z", "/nonexistent"],
+                 ["undeclare"], ["undeclare", "a", "-U"], ["undeclare", "a", "1.0", "-c"],
+                 ["undeclare", "a", "-t", "latest"], ["undeclare", "a", "-t", "latest", "-F"],
+                 ["undeclare", "a", "-t", "nosuchtag"], ["undeclare", "a", "1.0", "-f", "DarwinX86"],
+                 ["undeclare", "a", "1.0", "-Z", "{stack}"],
+                 ["remove"], ["remove", "a"], ["remove", "a", "2.0", "--noInteractive", "-N"],
+                 ["remove", "a", "2.0", "-f", "DarwinX86"], ["remove", "-t", "current", "-v"],
+                 ["remove", "implicitProducts", "1.0", "-N"]):
+        add("cli/%s-as-typed" % argv[0], base, {"op": "cli", "argv": argv}, [CLI])
+    two0 = base + [D("a", "1.0", None, s=1), D("a", "3.0", "stable", s=1)]
+    for argv in (["declare", "b", "2.0", "-r", "{dir2:b:2.0}", "-Z", "{stack2}"],
+                 ["declare", "b", "2.0", "-r", "{dir:b:2.0}", "-Z", "{stack2}", "-t", "stable"],
+                 ["declare", "a", "3.0", "-t", "current", "-z", "stack2"],
+                 ["undeclare", "a", "1.0", "-Z", "{stack2}"], ["undeclare", "a", "-t", "stable", "-z", "stack2"],
+                 ["remove", "a", "1.0", "-Z", "{stack2}:{stack}", "-N"], ["remove", "-t", "stable", "-Z", "{stack2}"]):
+        add("cli/%s-as-typed" % argv[0], two0, {"op": "cli", "argv": argv}, [CLI], stacks=2)
+    # -- redeclarations
+    add("redeclare/lost-table-file", base, {"op": "declare", "p": "a", "v": "1.0", "dir": "alt"}, both_f,
+        lost_table=[["a", "1.0"]])
+    add("redeclare/lost-table-file", base, {"op": "declare", "p": "a", "v": "1.0", "dir": "alt", "tag": "stable"}, both,
+        lost_table=[["a", "1.0"]])
+    add("redeclare/identical", base, {"op": "declare", "p": "a", "v": "1.0"}, both_f)
+    add("redeclare/identical-with-tag", base, {"op": "declare", "p": "a", "v": "1.0", "tag": "stable"}, both_f)
+    add("redeclare/identical-with-tag", base, {"op": "declare", "p": "a", "v": "1.0", "tag": "current"}, both)
+    for d in ("alt", "other"):
+        add("redeclare/other-directory", base, {"op": "declare", "p": "a", "v": "1.0", "dir": d}, both_f)
+        add("redeclare/other-directory-with-tag", base, {"op": "declare", "p": "a", "v": "1.0", "dir": d,
+                                                         "tag": "stable"}, both_f + loud)
+    add("redeclare/other-table", base, {"op": "declare", "p": "a", "v": "1.0", "table": "none"}, both_f)
+    for t in ("stream", "stream2"):
+        add("redeclare/stream-table-over-plain", base, {"op": "declare", "p": "a", "v": "1.0", "table": t}, both_f)
+        add("redeclare/stream-table-over-interned", interned, {"op": "declare", "p": "a", "v": "1.0", "table": t,
+                                                               "extern": ["x"]}, both_f)
+        add("redeclare/stream-table-drops-external", interned, {"op": "declare", "p": "a", "v": "1.0", "table": t},
+            both_f)
+    add("redeclare/stream-table-over-interned", interned, {"op": "declare", "p": "a", "v": "1.0", "table": "stream2",
+                                                           "tag": "stable", "extern": ["x!"]}, both_f)
+    for ext in (["x"], ["x!"], ["x", "z"], ["y"], []):
+        add("redeclare/external-files-again", interned, {"op": "declare", "p": "a", "v": "1.0", "table": "interned",
+                                                         "extern": ext}, both_f)
+        add("redeclare/plain-table-over-interned", interned, {"op": "declare", "p": "a", "v": "1.0", "extern": ext,
+                                                              "tag": "stable"}, both_f)
+    add("redeclare/external-files-again", [D("b", "1.0", "current", extern=["x"])],
+        {"op": "declare", "p": "b", "v": "1.0", "extern": ["x!", "z"], "tag": "current"}, both_f)
+    add("redeclare/plain-table-over-interned", interned, {"op": "declare", "p": "a", "v": "1.0"}, both_f)
+    # -- tag moves
+    for tag in TAGS + [USERTAG]:
+        add("tag/assign-to-declared", base, {"op": "declare_tag", "p": "a", "v": "2.0", "tag": tag}, both + loud[:2])
+    add("tag/assign-to-declared", base, {"op": "declare_tag", "p": "a", "v": "1.0", "tag": "current"}, both)
+    add("tag/assign-to-declared", base + [D("a", "3.0", dir="none", table="none")],
+        {"op": "declare_tag", "p": "a", "v": "3.0", "tag": "stable"}, both)
+    add("tag/assign-to-declared", base, {"op": "declare_tag", "p": "a", "v": "2.0", "tag": "current"}, both_f,
+        no_prod_dir=[["a", "2.0"]])
+    add("tag/assign-site-tag", base + [D("b", "2.0", SITETAG)], {"op": "declare_tag", "p": "a", "v": "2.0",
+                                                                  "tag": SITETAG}, both, site_tags=True)
+    add("tag/assign-site-tag", base + [D("b", "2.0", SITETAG)], {"op": "undeclare", "p": "b", "v": None,
+                                                                  "tag": SITETAG}, both, site_tags=True)
+    add("tag/assign-site-tag", base + [D("b", "2.0", SITETAG)], {"op": "remove_tag", "tag": SITETAG}, [CLI],
+        site_tags=True)
+    add("tag/assign-to-undeclared", base, {"op": "declare_tag", "p": "a", "v": "3.0", "tag": "current"}, both)
+    add("tag/assign-unknown-tag", base, {"op": "declare_tag", "p": "a", "v": "2.0", "tag": "nosuchtag"}, both)
+    add("tag/assign-reserved-tag", base, {"op": "declare_tag", "p": "a", "v": "2.0", "tag": "latest"}, both_f)
+    # -- undeclare
+    add("undeclare/version", base, {"op": "undeclare", "p": "a", "v": "1.0"}, both_f + loud)
+    add("undeclare/version", base, {"op": "undeclare", "p": "a", "v": "2.0"}, both)
+    add("undeclare/only-version", base, {"op": "undeclare", "p": "b", "v": None}, both)
+    add("undeclare/ambiguous", base, {"op": "undeclare", "p": "a", "v": None}, both)
+    add("undeclare/not-declared", base, {"op": "undeclare", "p": "a", "v": "3.0"}, both)
+    add("undeclare/not-declared", base, {"op": "undeclare", "p": "nosuch", "v": None}, both)
+    add("undeclare/interned", interned, {"op": "undeclare", "p": "a", "v": "1.0"}, both)
+    add("undeclare/setup-product", base, {"op": "undeclare", "p": "a", "v": "1.0"},
+        [dict(e, setup=[["a", "1.0"]]) for e in both_f])
+    for v in ("1.0", None):
+        add("undeclare/tag-only", base, {"op": "undeclare", "p": "a", "v": v, "tag": "current"}, both + loud[:2])
+        add("undeclare/tag-and-version", base, {"op": "undeclare", "p": "a", "v": v, "tag": "current", "both": True},
+            both)
+    add("undeclare/tag-not-assigned", base, {"op": "undeclare", "p": "a", "v": "1.0", "tag": "stable"},
+        both + [dict(API, quiet=0)])
+    add("undeclare/tag-not-assigned", base, {"op": "undeclare", "p": "c", "v": None, "tag": "stable"},
+        both + [dict(API, quiet=0)])
+    add("undeclare/deprecated-current", base, {"op": "undeclare", "p": "a", "v": "1.0", "deprecated": "flag"}, [API])
+    add("undeclare/deprecated-current", base, {"op": "undeclare", "p": "a", "v": None, "deprecated": "bool"}, [API])
+    add("undeclare/tag-as-version", base + [D("a", "tag:" + USERTAG, USERTAG, dir="alt")],
+        {"op": "undeclare", "p": "a", "v": None, "tag": USERTAG}, both)
+    add("undeclare/user-tag", base + [D("a", "2.0", USERTAG, dir="omit", table="omit")],
+        {"op": "undeclare", "p": "a", "v": "2.0", "tag": USERTAG}, both)
+    # -- tag removal
+    for v in ("1.0", None):
+        add("untag/assigned", base, {"op": "untag", "p": "a", "v": v, "tag": "current"},
+            [dict(API, quiet=1), dict(API, quiet=0, verbose=1)])
+    add("untag/assigned-in-named-stack", base, {"op": "untag", "p": "a", "v": None, "tag": "current", "s": 0}, [API])
+    add("untag/not-assigned", base, {"op": "untag", "p": "a", "v": "2.0", "tag": "current"},
+        [dict(API, quiet=1), dict(API, quiet=0)])
+    add("untag/not-assigned", base, {"op": "untag", "p": "c", "v": None, "tag": "stable"},
+        [dict(API, quiet=1), dict(API, quiet=0)])
+    add("untag/not-assigned", base, {"op": "untag", "p": "c", "v": None, "tag": "stable", "s": [0]},
+        [dict(API, quiet=0)])
+    add("untag/assigned-in-named-stack", base, {"op": "untag", "p": "a", "v": None, "tag": "current", "s": [0]}, [API])
+    add("untag/not-declared", base, {"op": "untag", "p": "nosuch", "v": None, "tag": "current"}, [API])
+    add("untag/not-declared", base, {"op": "untag", "p": "a", "v": "3.0", "tag": "current"}, [API])
+    add("untag/user-tag", base + [D("a", "tag:" + USERTAG, USERTAG, dir="alt")],
+        {"op": "untag", "p": "a", "v": None, "tag": USERTAG}, [API])
+    add("untag/everywhere", base, {"op": "remove_tag", "tag": "current"}, [CLI, dict(CLI, verbose=1)])
+    add("untag/everywhere", base, {"op": "remove_tag", "tag": "stable"}, [CLI])
+    add("untag/everywhere", base, {"op": "remove_tag", "tag": "latest"}, [CLI, dict(CLI, **F)])
+    add("untag/everywhere", base, {"op": "remove_tag", "tag": "nosuchtag"}, [CLI])
+    add("remove/version-of-tag", base, {"op": "remove_tag", "tag": "stable", "p": "a"}, [CLI, dict(CLI, **F)])
+    add("remove/version-of-tag", base, {"op": "remove_tag", "tag": "current", "p": "a", "check": True}, [CLI, dict(CLI, **F)])
+    add("remove/version-of-tag", base, {"op": "remove_tag", "tag": "stable", "p": "b"}, [CLI])
+    # -- remove
+    add("remove/single", base, {"op": "remove", "p": "a", "v": "2.0"}, both_f + loud)
+    add("remove/single-in-use", base, {"op": "remove", "p": "a", "v": "1.0", "check": True}, both_f)
+    add("remove/not-declared", base, {"op": "remove", "p": "a", "v": "3.0"}, both)
+    add("remove/default-product", base, {"op": "remove", "p": "implicitProducts", "v": "1.0"}, [API])
+    add("remove/no-directory", base + [D("a", "3.0", dir="none", table="none")],
+        {"op": "remove", "p": "a", "v": "3.0"}, both)
+    add("remove/interned", interned, {"op": "remove", "p": "a", "v": "1.0"}, both)
+    add("remove/setup-product", base, {"op": "remove", "p": "a", "v": "2.0"},
+        [dict(e, setup=[["a", "2.0"]]) for e in both_f])
+    for chk in (False, True):
+        add("remove/recursive", base, {"op": "remove", "p": "c", "v": "1.0", "rec": True, "check": chk, "no_i": True},
+            both_f + [dict(CLI, verbose=1)])
+        add("remove/recursive", base + [D("c", "2.0")],
+            {"op": "remove", "p": "c", "v": "1.0", "rec": True, "check": chk}, both_f)
+    shared = [D("c", "1.0", "current"), D("b", "1.0", "current", dir="shared"), D("a", "1.0", "current", dir="shared")]
+    add("remove/recursive-shared-directory", shared, {"op": "remove", "p": "c", "v": "1.0", "rec": True}, both_f)
+    add("remove/recursive-shared-directory", shared[:2] + [D("a", "1.0", "current")],
+        {"op": "remove", "p": "c", "v": "1.0", "rec": True, "check": True}, both)
+    for ans in (["y", "y", "y"], ["n", "y", "n"], ["y", "q"], ["!"], ["?", "", "n", "y"], []):
+        add("remove/interactive", base, {"op": "remove", "p": "c", "v": "1.0", "rec": True, "answers": ans}, both)
+    # -- database states
+    stale = dict(stale=[["a", "2.0"]])
+    for op in ({"op": "undeclare", "p": "a", "v": "1.0"}, {"op": "remove", "p": "a", "v": "1.0"},
+               {"op": "undeclare", "p": "a", "v": None, "tag": "stable"},
+               {"op": "untag", "p": "a", "v": None, "tag": "stable"},
+               {"op": "declare_tag", "p": "a", "v": "1.0", "tag": "stable"},
+               {"op": "declare", "p": "a", "v": "2.0"},
+               {"op": "remove", "p": "c", "v": "1.0", "rec": True}):
+        add("state/tag-of-lost-version", base, op, [API] if op["op"] == "untag" else both, **stale)
+    for op in ({"op": "declare", "p": "a", "v": "3.0", "tag": "current"}, {"op": "undeclare", "p": "a", "v": "1.0"},
+               {"op": "remove_tag", "tag": "current"}):
+        add("state/tag-unknown-to-configuration", base, op, [dict(CLI), dict(CLI, verbose=1)] if
+            op["op"] == "remove_tag" else both, alien=["a"])
+    legacy = dict(legacy=[["a", "1.0"], ["b", "1.0"]])
+    for op in ({"op": "undeclare", "p": "a", "v": "1.0"}, {"op": "undeclare", "p": "a", "v": None, "tag": "current"},
+               {"op": "untag", "p": "a", "v": "1.0", "tag": "current"},
+               {"op": "declare_tag", "p": "a", "v": "2.0", "tag": "current"},
+               {"op": "declare", "p": "a", "v": "1.0", "dir": "alt"},
+               {"op": "remove", "p": "c", "v": "1.0", "rec": True},
+               {"op": "cli", "argv": ["undeclare", "a", "1.0", "-f", "DarwinX86"]},
+               {"op": "cli", "argv": ["declare", "a", "1.0", "-t", "stable", "-f", "DarwinX86"]}):
+        envs = [CLI] if op["op"] == "cli" else ([API] if op["op"] == "untag" else
+                                                (both_f if op["op"] == "declare" else both))
+        add("state/records-with-second-flavor", base, op, envs, **legacy)
+    # -- a product declared for the fallback flavor (generic) while the commands run as Linux64
+    fb = base + [D("a", "3.0", "stable", flavor="generic"), D("b", "2.0", None, flavor="generic")]
+    for op in ({"op": "undeclare", "p": "a", "v": "3.0"}, {"op": "undeclare", "p": "a", "v": None, "tag": "stable"},
+               {"op": "untag", "p": "a", "v": "3.0", "tag": "stable"},
+               {"op": "declare_tag", "p": "b", "v": "2.0", "tag": "current"},
+               {"op": "declare", "p": "a", "v": "3.0", "tag": "current"},
+               {"op": "declare", "p": "a", "v": "3.0", "dir": "alt"},
+               {"op": "remove", "p": "b", "v": "2.0", "rec": True},
+               {"op": "cli", "argv": ["undeclare", "a", "3.0", "-f", "generic"]},
+               {"op": "cli", "argv": ["remove", "b", "2.0", "-f", "generic", "-N"]}):
+        envs = [CLI] if op["op"] == "cli" else ([API] if op["op"] == "untag" else
+                                                (both_f if op["op"] == "declare" else both))
+        add("state/declared-for-fallback-flavor", fb, op, envs)
+    # -- several requests to one Eups instance (python API)
+    for ops in ([{"op": "declare", "p": "a", "v": "3.0", "table": "streamopt", "tag": "current"},
+                 {"op": "undeclare", "p": "a", "v": "1.0"}, {"op": "remove", "p": "c", "v": "1.0", "rec": True}],
+                [{"op": "untag", "p": "a", "v": None, "tag": "current"}, {"op": "undeclare", "p": "a", "v": "1.0"},
+                 {"op": "declare", "p": "a", "v": "1.0", "dir": "alt"}, {"op": "remove", "p": "a", "v": "2.0"}],
+                [{"op": "declare", "p": "b", "v": "2.0", "extern": ["x"], "table": "stream"},
+                 {"op": "declare", "p": "b", "v": "2.0", "extern": ["x!"], "table": "stream2", "tag": "stable"},
+                 {"op": "undeclare", "p": "b", "v": "2.0"}]):
+        add("sequence/one-instance", base, {"op": "seq", "ops": ops, "keep_going": True},
+            [dict(API, quiet=0), dict(API, quiet=0, verbose=1, **F)])
+    # -- an ordinary user on stacks that belong to somebody else
+    nob = dict(user="nobody")
+    ro = [dict(API, quiet=0, **nob), dict(CLI, nolocks=True, **nob)]     # (the lock directory cannot be made either)
+    for op in ({"op": "declare", "p": "a", "v": "3.0"}, {"op": "declare", "p": "a", "v": "3.0", "s": 0},
+               {"op": "declare", "p": "a", "v": "3.0", "tag": USERTAG},
+               {"op": "declare", "p": "a", "v": "3.0", "table": "stream", "extern": ["x"]},
+               {"op": "declare_tag", "p": "a", "v": "2.0", "tag": "current"},
+               {"op": "declare_tag", "p": "a", "v": "2.0", "tag": USERTAG},
+               {"op": "undeclare", "p": "a", "v": "1.0"}, {"op": "undeclare", "p": "a", "v": None, "tag": "current"},
+               {"op": "untag", "p": "a", "v": None, "tag": "current"},
+               {"op": "remove", "p": "c", "v": "1.0", "rec": True}, {"op": "remove_tag", "tag": "current"}):
+        envs = [ro[1]] if op["op"] == "remove_tag" else ([ro[0]] if op["op"] == "untag" or op.get("s") is not None
+                                                         else ro[:2])
+        add("state/stack-not-writable", base, op, envs)
+    two1 = base + [D("a", "1.0", None, s=1), D("b", "2.0", "stable", s=1)]
+    for op in ({"op": "declare", "p": "a", "v": "3.0"}, {"op": "declare", "p": "a", "v": "3.0", "tag": "stable"},
+               {"op": "declare", "p": "a", "v": "3.0", "table": "stream2", "extern": ["y"]},
+               {"op": "declare_tag", "p": "a", "v": "2.0", "tag": "current"},
+               {"op": "declare_tag", "p": "b", "v": "1.0", "tag": "stable"},
+               {"op": "declare", "p": "c", "v": "3.0", "s": 1},
+               {"op": "undeclare", "p": "b", "v": "2.0"}, {"op": "undeclare", "p": "a", "v": "1.0"},
+               {"op": "remove", "p": "b", "v": "2.0", "rec": True}):
+        add("state/first-stack-not-writable", two1, op, [dict(e, own=[1]) for e in ro[:2]], stacks=2)
+    # -- no product cache (python API only)
+    for op in ({"op": "declare", "p": "a", "v": "3.0", "tag": "current"},
+               {"op": "declare_tag", "p": "a", "v": "2.0", "tag": "current"}, {"op": "undeclare", "p": "a", "v": "1.0"},
+               {"op": "undeclare", "p": "a", "v": None, "tag": "current"},
+               {"op": "untag", "p": "a", "v": None, "tag": "current"},
+               {"op": "remove", "p": "c", "v": "1.0", "rec": True, "check": True}):
+        add("state/no-product-cache", base, op, [dict(API, nocache=True), dict(API, nocache=True, **F)])
+    two = base + [D("a", "1.0", None, s=1), D("a", "3.0", "stable", s=1), D("b", "2.0", "stable", s=1)]
+    for op in ({"op": "declare_tag", "p": "a", "v": "1.0", "tag": "stable"},
+               {"op": "declare_tag", "p": "a", "v": "3.0", "tag": "current"},
+               {"op": "declare", "p": "c", "v": "2.0", "s": 1, "tag": "current"},
+               {"op": "declare", "p": "a", "v": "2.0", "s": 1, "dir": "own"},
+               {"op": "undeclare", "p": "a", "v": "1.0"}, {"op": "undeclare", "p": "a", "v": "3.0"},
+               {"op": "undeclare", "p": "a", "v": "1.0", "s": 1},
+               {"op": "undeclare", "p": "a", "v": None, "tag": "stable"},
+               {"op": "untag", "p": "a", "v": None, "tag": "stable", "s": 1},
+               {"op": "untag", "p": "b", "v": "2.0", "tag": "stable"},
+               {"op": "remove", "p": "a", "v": "3.0"}, {"op": "remove", "p": "b", "v": "2.0", "rec": True},
+               {"op": "remove_tag", "tag": "stable"}):
+        envs = [CLI] if op["op"] == "remove_tag" else ([API] if op["op"] == "untag" or
+                                                       (op.get("s") is not None and op["op"] != "declare") else both)
+        add("state/two-stacks", two, op, envs, stacks=2)
+    for fl, warm in (("generic", True), ("generic", False), ("Linux64", True)):
+        for op in ({"op": "declare", "p": "a", "v": "3.0", "tag": "current"}, {"op": "undeclare", "p": "a", "v": "1.0"},
+                   {"op": "untag", "p": "a", "v": None, "tag": "current"},
+                   {"op": "remove", "p": "c", "v": "1.0", "rec": True, "check": True}):
+            add("state/cache-%s-%s" % ("fresh" if warm else "stale", fl), base, op,
+                [API] if op["op"] == "untag" else both, flavor=fl, warm=warm)
+    return out
 
 
 def corpus_cases():
@@ -227,11 +1076,104 @@ def corpus_cases():
     return out
 
 
+def op_class(case):
+    """shape of the request for the input-distribution histogram"""
+    op, env = case["op"], case.get("env") or {}
+    bits = [op["op"]]
+    if op["op"] == "cli":
+        return "cli:" + op["argv"][0]
+    if op["op"] == "seq":
+        return "seq:" + ",".join(o["op"] for o in op["ops"])
+    if op["op"] == "declare":
+        t = op.get("table", "own")
+        bits.append("table:" + ("stream" if t in STREAMS else t))
+        if op.get("extern"):
+            bits.append("extern")
+        if op.get("dir", "own") != "own":
+            bits.append("dir:" + op["dir"])
+    if op.get("tag"):
+        bits.append("usertag" if op["tag"] == USERTAG else "tag")
+    for k in ("both", "rec", "check"):
+        if op.get(k):
+            bits.append(k)
+    if op.get("answers") is not None:
+        bits.append("interactive")
+    if env.get("force"):
+        bits.append("force")
+    return "+".join(bits)
+
+
 def par_map(fn, items, nproc=12):
     """run fn(item) in forked children, nproc at a time; results in order"""
     from concurrent.futures import ThreadPoolExecutor
     with ThreadPoolExecutor(max_workers=nproc) as ex:
-        return list(ex.map(lambda it: common.in_child(fn, *it, timeout=300), items))
+        return list(ex.map(lambda it: common.in_child(fn, it, timeout=600), items))
+
+
+def judge(ctx, c, res, site_lines, family=None):
+    d, w = res["dry"], res["wet"]
+    env = c.get("env") or {}
+    st = norm_state(c["state"])
+    effective = bool(w is not None and not w["unchanged"])
+    kind = c["op"]["argv"][0] if c["op"]["op"] == "cli" else c["op"]["op"]
+    ctx.count(1, key="%s/%s" % (kind, "effective" if effective else "noop-or-refused"),
+              nontrivial=json.dumps(c, sort_keys=True) if effective else None)
+    ctx.bump("class:" + op_class(c))
+    ctx.bump("via:" + env.get("via", "api"))
+    ctx.bump("options:quiet=%s,verbose=%s" % (env.get("quiet", 1), env.get("verbose", 0)))
+    ctx.bump("state:flavor=%s,%s" % (st["flavor"], "cache-fresh" if st.get("warm") else "cache-stale"))
+    for k, name in (("stale", "state:tag-of-lost-version"), ("alien", "state:tag-unknown-to-configuration"),
+                    ("legacy", "state:records-with-second-flavor"), ("lost_table", "state:lost-table-file"),
+                    ("no_prod_dir", "state:version-file-without-PROD_DIR"),
+                    ("site_tags", "state:tags-defined-by-stack")):
+        if st.get(k):
+            ctx.bump(name)
+    if st["stacks"] > 1:
+        ctx.bump("state:two-stacks")
+    if any(x["dir"] == "shared" for x in st["declared"]):
+        ctx.bump("state:shared-product-directory")
+    if any(x["table"] in STREAMS or x["extern"] for x in st["declared"]):
+        ctx.bump("state:interned-files")
+    if any(x["tag"] == USERTAG for x in st["declared"]):
+        ctx.bump("state:user-tag")
+    if any(x.get("flavor") for x in st["declared"]):
+        ctx.bump("state:declared-for-fallback-flavor")
+    if env.get("setup"):
+        ctx.bump("state:product-is-setup")
+    if env.get("user") == "nobody":
+        ctx.bump("run-as:ordinary-user(stack not writable)" if not res.get("as_root") else "run-as:root(fallback)")
+    if env.get("nocache"):
+        ctx.bump("options:readCache=False")
+    if family:
+        ctx.bump("family:" + family)
+    ctx.bump("dry-outcome:" + d["outcome"].split(":")[0])
+    ctx.sample({"case": c, "dry": d["outcome"], "report": d["report"][:2], "wet": w and w["outcome"],
+                "wet_changes": w and w["diff"][:4]})
+    if not d["unchanged"]:
+        ctx.fail("dry-run-changed-stack", c, expected="records and product directories unchanged", observed=d["diff"],
+                 what="with noaction=True the operation changed %s" % d["diff"][:4])
+    # the theorem: no write site is reachable under noaction - not even one that rewrites the same bytes
+    for meth, line, path in d["spied"]:
+        ctx.traces_validated += 1
+        ctx.disagree(c, "dryrun_changes_nothing: no mutator call on a record or product directory",
+                     "dry run called a mutator on %s (below %s:%s)" % (path, meth, line), where="dry-run spy")
+        if d["unchanged"]:
+            ctx.bump("dry-run-mutator-call-without-change")
+    if w is None:
+        return
+    # "report what they would do": a request that changes the stack when run for real says something when dry
+    if effective and not int(env.get("quiet", 1 if env.get("via", "api") == "api" else 0)) and not d["report"]:
+        ctx.fail("dry-run-silent", c, expected="a report of what would be done", observed=d["report"],
+                 what="the dry run printed nothing although the real run changes %s" % w["diff"][:4])
+    # translator cross-check: every change made by the real run sits under a call the translator calls a write
+    for meth, line, path in w["spied"]:
+        if meth is None:
+            ctx.bump("write-outside-translated-methods")
+            continue
+        ctx.traces_validated += 1
+        if site_lines is not None and (meth, line) not in site_lines:
+            ctx.disagree(c, "translator: no write site at %s:%d" % (meth, line),
+                         "implementation wrote %s from there" % path, where="translator tables")
 
 
 def run(ctx):
@@ -241,12 +1183,15 @@ def run(ctx):
     except translate_guards.TranslationError as e:
         info = None
         ctx.proof_problems.append({"theorem": None, "what": "translator failed closed: %s" % e})
-    ctx.rule = ("static: guard structure regenerated from Eups.py, theorems re-checked; dynamic: random database "
-                "states (3 products x 3 versions, tags) x mutating operations (new declaration, redeclaration with/"
-                "without force, tag move, stream table file, external files, undeclare with/without tag, untag, "
-                "remove, recursive remove) run with noaction=True and the stack hashed before/after; a case is "
-                "non-trivial when the same operation with noaction=False changes the stack; distinct = distinct "
-                "(state, op)")
+    ctx.rule = ("static: guard structure regenerated from Eups.py and cmd.py, theorems re-checked; dynamic: directed "
+                "families (every class of the quantifier - first declaration, new version, redeclaration with/without "
+                "force, tag move, stream table file, external files, undeclare with/without version and tag, tag "
+                "removal, remove, recursive remove, interactive remove - in the forms the python API and the command "
+                "line allow, on states with interned files, shared product directories, two stacks, user tags, tags "
+                "of lost versions, tags unknown to the configuration, fresh and stale caches) plus random states x "
+                "requests x options; each run with noaction=True, records and product directories hashed before/"
+                "after/after exit handlers, under a spy on the low-level mutators; a case is non-trivial when the "
+                "same request with noaction=False changes the stack; distinct = distinct (state, request, options)")
     ctx.trusted_base = common.COMMON_TRUSTED + [
         "harness/translate_guards.py (python ast -> Coq term, fail-closed) and its classification tables "
         "(write / not-a-stack-record / pure), printed under coverage.translator",
@@ -260,45 +1205,41 @@ def run(ctx):
         ctx.check_theorems()
         if info["unknown_callees"]:
             ctx.notes.append("translator met unknown callees (treated as writes): %s" % info["unknown_callees"][:3])
-    site_lines = set()
+    site_lines = None
     if info is not None:
+        site_lines = set()
         for s in info["sites"]:
             site_lines.add((s["method"], s["line"]))
         for s in info["not_stack_records"]:
             site_lines.add((s["method"], s["line"]))
     # ---- dynamic
-    cases = corpus_cases()
-    n = ctx.size(60, 600)
-    for _ in range(n):
-        st = gen_state(ctx.rng)
-        cases.append({"state": st, "op": gen_op(ctx.rng, st)})
-    dry = par_map(run_case, [(dict(c, noaction=True), None) for c in cases])
-    wet = par_map(run_case, [(dict(c, noaction=False), True) for c in cases])
-    for c, d, w in zip(cases, dry, wet):
-        if d[0] != "ok" or w[0] != "ok":
-            raise RuntimeError("scenario child failed: %r %r" % (d, w))
-        d, w = d[1], w[1]
-        changed_when_wet = not w["unchanged"]
-        ctx.count(1, key="%s/%s" % (c["op"]["op"], "effective" if changed_when_wet else "noop-or-refused"),
-                  nontrivial=json.dumps(c, sort_keys=True) if changed_when_wet else None)
-        ctx.sample({"case": c, "dry": d["outcome"], "wet": w["outcome"], "wet_changes": w["diff"][:4]})
-        if not d["unchanged"]:
-            ctx.fail("dry-run-changed-stack", c, expected="stack unchanged", observed=d["diff"],
-                     what="with noaction=True the operation changed %s" % d["diff"][:4])
-        # translator cross-check: every change made by the wet run sits under a call the translator calls a write
-        for meth, line, path in w["spied"]:
-            if meth is None:
-                continue
-            ctx.traces_validated += 1
-            if info is not None and (meth, line) not in site_lines:
-                ctx.disagree(c, "translator: no write site at %s:%d" % (meth, line),
-                             "implementation wrote %s from there" % path, where="translator tables")
+    cases = [(None, c) for c in corpus_cases()]
+    if ctx.scale == 1:                                     # deterministic: no use repeating them in an enlarged search
+        for family, st, op, envs in directed_cases():
+            for env in envs:
+                cases.append((family, {"state": st, "op": op, "env": env}))
+    for _ in range(ctx.size(70, 900)):
+        cases.append((None, random_case(ctx.rng)))
+    common.import_eups()                                   # once, here: the children are forked with it loaded
+    import eups.cmd  # noqa
+    results = par_map(run_case, [c for _, c in cases])
+    for (family, c), r in zip(cases, results):
+        if r[0] != "ok":
+            raise RuntimeError("scenario child failed: %r on %s" % (r, json.dumps(c)))
+        judge(ctx, c, r[1], site_lines, family)
 
 
 def replay(ctx, path):
     obj = json.load(open(path))
+    if "input" not in obj:                                 # a proof-broken record has no input: the whole check decides
+        print("replay %s: no failing input recorded (%s); run ./check C15" % (path, obj.get("kind")))
+        return 1
     c = obj["input"]
-    r = common.in_child(run_case, dict(c, noaction=True), None)
-    bad = r[0] != "ok" or not r[1]["unchanged"]
-    print("replay %s: %s %s" % (path, "still fails" if bad else "passes", r[1] if r[0] == "ok" else r))
+    r = common.in_child(run_case, c, timeout=600)
+    bad = r[0] != "ok" or not r[1]["dry"]["unchanged"] or r[1]["dry"]["spied"]
+    if not bad and r[1]["wet"] is not None:
+        env = c.get("env") or {}
+        quiet = int(env.get("quiet", 1 if env.get("via", "api") == "api" else 0))
+        bad = bool(not r[1]["wet"]["unchanged"] and not quiet and not r[1]["dry"]["report"])
+    print("replay %s: %s %s" % (path, "still fails" if bad else "passes", r[1]["dry"] if r[0] == "ok" else r))
     return 1 if bad else 0
